@@ -225,6 +225,53 @@ func C20() int {
 			c.Sample(map[string]any{"case": label, "exit": exit, "requests": logURLs(log), "artefacts_searched": len(artefacts), "needles": len(needles), "stderr": short(bytes.TrimSpace(artefacts["stderr"]), 200)})
 		}
 	})
+	// command lines that fail before any request (usage errors, --help): the key, supplied through the
+	// environment or a flag, must not show up in the usage text / error either
+	type badCL struct {
+		name string
+		args []string
+	}
+	bads := []badCL{
+		{"mistyped-flag", []string{"redact", "--atlasProjectID", "p", "--atlasClusterName", "c", "-o", "out.log"}},
+		{"non-integer-date", []string{"redact", "--atlasProjectId", "p", "--atlasClusterName", "c", "-o", "out.log", "--atlasLogStartDate", "17e8", "--atlasLogEndDate", "5"}},
+		{"extra-positional-arguments", []string{"redact", "a.log", "b.log", "--atlasProjectId", "p"}},
+		{"redact-help", []string{"redact", "--help"}},
+		{"root-help", []string{"--help"}},
+		{"unknown-subcommand", []string{"redacted", "--atlasProjectId", "p"}},
+		{"missing-flag-value", []string{"redact", "--atlasProjectId", "p", "--atlasClusterName", "c", "-o", "out.log", "--atlasPrivateKey"}},
+	}
+	parallelDo(len(bads)*len(c20Keys)*2, func(i int) {
+		b, ki, viaFlag := bads[i%len(bads)], (i/len(bads))%len(c20Keys), i/(len(bads)*len(c20Keys)) == 1
+		pub, priv := c20Pubs[ki%len(c20Pubs)], c20Keys[ki]
+		dir := s.TempDir("c20cl")
+		defer os.RemoveAll(dir)
+		args := append([]string{}, b.args...)
+		env := []string{"HTTPS_PROXY=http://127.0.0.1:9", "https_proxy=http://127.0.0.1:9"}
+		if viaFlag {
+			if b.name == "missing-flag-value" || b.name == "root-help" || b.name == "unknown-subcommand" {
+				return
+			}
+			args = append(args, "--atlasPublicKey="+pub, "--atlasPrivateKey="+priv)
+		} else {
+			env = append(env, "ATLAS_PUBLIC_KEY="+pub, "ATLAS_PRIVATE_KEY="+priv)
+		}
+		r := s.CLI(sut.Run{Args: args, Dir: dir, Env: env, Timeout: time.Minute})
+		if r.TimedOut {
+			c.Inconclusive("watchdog")
+			return
+		}
+		c.Count("usage_error_runs", 1)
+		c.Eval(fmt.Sprintf("usage|%s|%d|%v", b.name, ki, viaFlag))
+		for where, data := range map[string][]byte{"stdout": r.Stdout, "stderr": r.Stderr} {
+			for needle, enc := range c20Needles(pub, priv) {
+				if bytes.Contains(data, []byte(needle)) {
+					c.Violation("private-key-visible|"+where+"|usage-error", fmt.Sprintf("command line '%s' (key supplied by %s): the private key (%s) appears in %s", b.name, map[bool]string{true: "flag", false: "environment"}[viaFlag], enc, where),
+						map[string]any{"kind": "atlas-key", "case": b.name, "args": args, "private_key": priv, "exit": r.Exit, where: short(data, 600)})
+				}
+			}
+		}
+	})
+
 	var bn []string
 	for _, b := range c20Behaviours {
 		bn = append(bn, b.name)
